@@ -144,5 +144,135 @@ impl PersistedWorkingLog {
 //#end
 }
 
+// ---------------------------------------------------------------- (3) the checkpoint journal
+/// stand-ins
+pub struct Checkpoint { pub _opaque: () }
+pub struct JPath { pub _opaque: () }
+#[verifier::external_body]
+#[verifier::reject_recursive_types(K)]
+#[verifier::reject_recursive_types(V)]
+pub struct HashMap<K, V> { _p: core::marker::PhantomData<(K, V)> }
+pub uninterp spec fn cj_exists(w: PersistedWorkingLog) -> bool;
+pub uninterp spec fn cj_read(w: PersistedWorkingLog) -> Option<Seq<char>>;       // None: the read failed
+pub uninterp spec fn cj_path_of(p: JPath) -> PersistedWorkingLog;
+pub uninterp spec fn sp_lines_c(s: Seq<char>) -> Seq<Seq<char>>;
+pub uninterp spec fn blank_c(l: Seq<char>) -> bool;
+pub uninterp spec fn cp_ok(l: Seq<char>) -> bool;                                // serde accepts the line as a checkpoint
+pub uninterp spec fn cp_val(l: Seq<char>) -> Checkpoint;
+pub uninterp spec fn version_ok(c: Checkpoint) -> bool;                           // api_version == CHECKPOINT_API_VERSION
+pub uninterp spec fn migrate_all(cps: Seq<Checkpoint>) -> Seq<Checkpoint>;      // the 7-char -> 16-char prompt hash migration
+pub open spec fn strs_c(v: Seq<&str>) -> Seq<Seq<char>> { Seq::new(v.len(), |i: int| v[i]@) }
+#[verifier::external_body]
+fn opq_journal_path(w: &PersistedWorkingLog) -> (r: JPath)
+    ensures cj_path_of(r) == *w,
+{ unimplemented!() }
+#[verifier::external_body]
+fn opq_path_exists(p: &JPath) -> (r: bool)
+    ensures r == cj_exists(cj_path_of(*p)),
+{ unimplemented!() }
+#[verifier::external_body]
+fn opq_read_journal(p: &JPath) -> (r: Result<String, GitAiError>)
+    ensures r is Ok <==> cj_read(cj_path_of(*p)) is Some, r is Ok ==> r->Ok_0@ == cj_read(cj_path_of(*p))->Some_0,
+{ unimplemented!() }
+#[verifier::external_body]
+fn opq_lines_of<'a>(s: &'a String) -> (r: Vec<&'a str>)
+    ensures strs_c(r@) == sp_lines_c(s@),
+{ unimplemented!() }
+#[verifier::external_body]
+fn opq_blank_c(s: &str) -> (r: bool)
+    ensures r == blank_c(s@),
+{ unimplemented!() }
+#[verifier::external_body]
+fn opq_parse_checkpoint(s: &str) -> (r: Result<Checkpoint, GitAiError>)
+    ensures r is Ok <==> cp_ok(s@), r is Ok ==> r->Ok_0 == cp_val(s@),
+{ unimplemented!() }
+#[verifier::external_body]
+fn opq_version_ok(c: &Checkpoint) -> (r: bool)
+    ensures r == version_ok(*c),
+{ unimplemented!() }
+#[verifier::external_body]
+fn opq_hash_map_new() -> (r: HashMap<String, String>)
+{ unimplemented!() }
+#[verifier::external_body]
+fn opq_build_hash_map(cps: &Vec<Checkpoint>, m: &mut HashMap<String, String>)
+{ unimplemented!() }
+#[verifier::external_body]
+fn opq_migrate_all(cps: Vec<Checkpoint>, m: &HashMap<String, String>, out: &mut Vec<Checkpoint>)
+    requires old(out)@.len() == 0,
+    ensures final(out)@ == migrate_all(cps@),
+{ unimplemented!() }
+/// the checkpoints of the first n lines: every non-blank line must parse; those of another api version are skipped
+pub open spec fn cps_of(ls: Seq<Seq<char>>, n: int) -> Option<Seq<Checkpoint>>
+    decreases n
+{
+    if n <= 0 { Some(Seq::<Checkpoint>::empty()) } else {
+        match cps_of(ls, n - 1) {
+            None => None,
+            Some(acc) => if blank_c(ls[n - 1]) { Some(acc) } else if !cp_ok(ls[n - 1]) { None } else if version_ok(cp_val(ls[n - 1])) { Some(acc.push(cp_val(ls[n - 1]))) } else { Some(acc) },
+        }
+    }
+}
+pub proof fn lemma_cps_none(ls: Seq<Seq<char>>, k: int, n: int)
+    requires k <= n, cps_of(ls, k) is None,
+    ensures cps_of(ls, n) is None,
+    decreases n - k
+{
+    if k < n { lemma_cps_none(ls, k, n - 1); }
+}
+impl PersistedWorkingLog {
+//#item file=src/git/repo_storage.rs kind=fn name=read_all_checkpoints impl="PersistedWorkingLog" opaque='[{"expr": "self.dir.join(\"checkpoints.jsonl\")", "call": "opq_journal_path(self)"}, {"expr": "checkpoints_file.exists()", "call": "opq_path_exists(&checkpoints_file)"}, {"expr": "fs::read_to_string(&checkpoints_file)", "call": "opq_read_journal(&checkpoints_file)"}, {"expr": "content.lines()", "call": "opq_lines_of(&content)"}, {"expr": "line.trim().is_empty()", "call": "opq_blank_c(line)"}, {"expr": "serde_json::from_str(line) .map_err(|e| std::io::Error::new(std::io::ErrorKind::InvalidData, e))", "call": "opq_parse_checkpoint(line)"}, {"stmt_from": "if checkpoint.api_version != CHECKPOINT_API_VERSION {", "call": "if !opq_version_ok(&checkpoint) { continue; }"}, {"expr": "HashMap::new()", "call": "opq_hash_map_new()"}, {"stmt_from": "for checkpoint in &checkpoints {", "call": "opq_build_hash_map(&checkpoints, &mut old_to_new_hash);"}, {"stmt_from": "for mut checkpoint in checkpoints {", "call": "opq_migrate_all(checkpoints, &old_to_new_hash, &mut migrated_checkpoints);"}]'
+    pub fn read_all_checkpoints(&self) -> (r_: Result<Vec<Checkpoint>, GitAiError>)
+    //@     ensures
+    //@         // no journal: no checkpoints.  Otherwise the read succeeds EXACTLY when the file is readable and EVERY non-blank line
+    //@         // parses - a journal with a damaged line is refused as a whole (the pre-commit checkpoint then refuses before git
+    //@         // runs), never used with a line missing - and yields the parsed checkpoints of this api version, in order, migrated
+    //@         !cj_exists(*self) ==> r_ is Ok && r_->Ok_0@.len() == 0,
+    //@         cj_exists(*self) ==> (r_ is Ok <==> cj_read(*self) is Some && cps_of(sp_lines_c(cj_read(*self)->Some_0), sp_lines_c(cj_read(*self)->Some_0).len() as int) is Some),
+    //@         cj_exists(*self) && r_ is Ok ==> r_->Ok_0@ == migrate_all(cps_of(sp_lines_c(cj_read(*self)->Some_0), sp_lines_c(cj_read(*self)->Some_0).len() as int)->Some_0),
+    {
+        let checkpoints_file = opq_journal_path(self);
+
+        if !opq_path_exists(&checkpoints_file) {
+            return Ok(Vec::new());
+        }
+
+        let content = opq_read_journal(&checkpoints_file)?;
+        let mut checkpoints = Vec::new();
+        //@ let ghost ls = sp_lines_c(content@);
+
+        // Parse JSONL file - each line is a separate JSON object
+        for line in it_0: opq_lines_of(&content)
+        //@     invariant
+        //@         ls == sp_lines_c(content@), cj_exists(*self), cj_read(*self) == Some(content@), it_0.snapshot@.remaining().len() == ls.len(),
+        //@         forall|i: int| 0 <= i < ls.len() ==> (#[trigger] it_0.snapshot@.remaining()[i])@ == ls[i],
+        //@         cps_of(ls, it_0.index@) == Some(checkpoints@),
+        {
+            //@ let ghost k = it_0.index@;
+            //@ proof { assert(line@ == ls[k]); if cps_of(ls, k + 1) is None { lemma_cps_none(ls, k + 1, ls.len() as int); } }
+            if !(opq_blank_c(line)) {
+
+            let checkpoint: Checkpoint = opq_parse_checkpoint(line)?;
+
+            if !(!opq_version_ok(&checkpoint)) {
+
+            checkpoints.push(checkpoint);
+        } }
+        }
+
+        // Migrate 7-char prompt hashes to 16-char hashes
+        // Step 1: Build mapping from old 7-char hash to new 16-char hash
+        let mut old_to_new_hash: HashMap<String, String> = opq_hash_map_new();
+
+        opq_build_hash_map(&checkpoints, &mut old_to_new_hash);
+
+        // Step 2: Replace 7-char author_ids in all checkpoints' attributions and line_attributions
+        let mut migrated_checkpoints = Vec::new();
+        opq_migrate_all(checkpoints, &old_to_new_hash, &mut migrated_checkpoints);
+
+        Ok(migrated_checkpoints)
+    }
+//#end
+}
+
 } // verus!
 fn main() {}
